@@ -163,3 +163,64 @@ Print Assumptions C01_exit_status_1.
 Theorem C01_exit_status_2 : forall fl v f n, exit_status fl v f n = 2%N <-> fl = FlagsBad.
 Proof. exact exit_status_2. Qed.
 Print Assumptions C01_exit_status_2.
+
+(* ------------------------------------------------------------------------ *)
+(* Aggregation: no panic / termination facts of the other modelled parts of
+   the linter, re-stated here so that C01 lists every component whose
+   totality is proved ([Require] without [Import]: the areas reuse names).
+   In these models partial Go operations are explicit outcomes (Panic, fuel
+   exhaustion, an error value): the theorems say those outcomes never occur. *)
+From AL Require Expr.Parser Expr.ParserProofs Expr.Lexer Expr.LexerProofs Expr.ParseSrc Expr.ParseSrcProofs.
+From AL Require Glob.Glob Glob.GlobFuel.
+From AL Require Graph.Dfs Graph.Needs Graph.NeedsProofs.
+From AL Require Out.Render Out.RenderProofs.
+From AL Require Expr.Template Expr.TemplateProofs.
+From Coq Require Import Sorted Permutation.
+
+(* expression lexer: the fuel supplied (length of the text + 2) always suffices *)
+Theorem C01_lexer_terminates : forall plus src ts f, Lexer.lex_all plus src = (ts, f) -> f <> Lexer.FFuel.
+Proof. exact LexerProofs.lex_all_no_fuel. Qed.
+Print Assumptions C01_lexer_terminates.
+
+(* expression parser: never out of fuel, for any strconv behaviour *)
+Theorem C01_parser_terminates : forall int_lit float_ok ts, Parser.parse_toks int_lit float_ok ts <> Parser.PFuel.
+Proof. exact ParserProofs.parse_no_fuel. Qed.
+Print Assumptions C01_parser_terminates.
+
+(* text inside ${{ }} / if: every text is accepted or yields exactly one
+   lexer or parser diagnostic inside the text: no other outcome (panic, hang) *)
+Theorem C01_expression_text_outcome : forall plus int_lit float_ok src,
+  (exists e, ParseSrc.parse_src plus int_lit float_ok src = ParseSrc.OAccept e) \/
+  (exists le, ParseSrc.parse_src plus int_lit float_ok src = ParseSrc.OLexErr le /\ ParseSrcProofs.within src (Lexer.le_pos le)) \/
+  (exists c p, ParseSrc.parse_src plus int_lit float_ok src = ParseSrc.OParseErr c p /\ ParseSrcProofs.within src p).
+Proof. exact ParseSrcProofs.src_outcome. Qed.
+Print Assumptions C01_expression_text_outcome.
+
+(* the placeholder loop of a scalar (checkExprsIn) terminates: each iteration
+   consumes at least 3 bytes and the fuel never runs out *)
+Theorem C01_template_loop_terminates : forall sem text line col quoted,
+  Template.lo_fuel (Template.check_exprs_in sem text line col quoted) = false.
+Proof. exact (fun sem text line col quoted => proj2 (proj2 (TemplateProofs.template_offset_inv sem text line col quoted))). Qed.
+Print Assumptions C01_template_loop_terminates.
+
+(* filter-pattern validation returns a diagnostic list for every string *)
+Theorem C01_glob_total : forall isRef pat, exists ds, Glob.validate_mode isRef pat = Some ds.
+Proof. exact GlobFuel.validate_mode_total. Qed.
+Print Assumptions C01_glob_total.
+
+(* the needs rule (DFS, cycle reconstruction, printing loop) terminates without
+   nil dereference for every job list and every iteration order *)
+Theorem C01_needs_total : forall jobs ord,
+  Permutation ord (AList.keys (Needs.table jobs)) -> exists ds, Needs.run jobs ord = Dfs.Done ds.
+Proof. exact NeedsProofs.run_total. Qed.
+Print Assumptions C01_needs_total.
+
+(* rendering never panics whatever positions the diagnostics carry *)
+Theorem C01_rendering_no_panic : forall rw sw ol es src, Render.print_errors rw sw ol es src <> Render.Panic.
+Proof. exact RenderProofs.print_errors_no_panic. Qed.
+Print Assumptions C01_rendering_no_panic.
+
+Theorem C01_snippet_no_panic : forall rw sw e src,
+  Render.pretty_print rw sw e src <> Render.Panic /\ Render.template_fields rw sw e src <> Render.Panic.
+Proof. exact RenderProofs.snippet_no_panic. Qed.
+Print Assumptions C01_snippet_no_panic.
